@@ -119,6 +119,12 @@ func writeEvidence(spec *Spec, tier string, seed int64, results []*UnitResult, c
 	cov["solver_cross_checks"] = crossChecksOut
 	cov["known_findings_confirmed"] = knownConfirmed
 	cov["stubs"] = stubs
+	var ys []string
+	for k := range yieldsSkipped {
+		ys = append(ys, k)
+	}
+	sort.Strings(ys)
+	cov["overlay_yield_points_skipped"] = ys
 	cov["units"] = units
 	cov["inconclusive"] = inconclusive
 	cov["exit_status"] = status
